@@ -681,6 +681,298 @@ theorem eta_series_recovers (cb : Bool) (o N L : ℕ) (ev : ℕ → ℤ) (resp :
   rw [List.map_congr_left hz, List.map_const', List.sum_replicate]
   simp
 
+/-! ### shape / squeeze layer: totality in the property's domain -/
+
+/-- `np.squeeze`: exactly the singleton dimensions are dropped -/
+theorem squeeze_shape (C T L : ℕ) :
+    squeeze [C, T, L]
+      = (if C = 1 then [] else [C]) ++ (if T = 1 then [] else [T]) ++ (if L = 1 then [] else [L]) := by
+  unfold squeeze
+  simp only [List.filter_cons, List.filter_nil, bne_iff_ne, ne_eq]
+  split_ifs <;> simp_all
+
+/-- the documented output shapes for response lengths ≥ 2: (C, T, len_et) with singleton C and/or T dropped -/
+theorem squeeze_shape_cases (C T L : ℕ) (hL : 2 ≤ L) :
+    (C = 1 → T = 1 → squeeze [C, T, L] = [L]) ∧
+    (C = 1 → T ≠ 1 → squeeze [C, T, L] = [T, L]) ∧
+    (C ≠ 1 → T = 1 → squeeze [C, T, L] = [C, L]) ∧
+    (C ≠ 1 → T ≠ 1 → squeeze [C, T, L] = [C, T, L]) := by
+  have hL1 : L ≠ 1 := by omega
+  rw [squeeze_shape]
+  refine ⟨?_, ?_, ?_, ?_⟩ <;> intro h1 h2 <;> simp [h1, h2, hL1]
+
+/-- 1-d events are broadcast: every channel sees the same event series, hence the same event types,
+so the ragged-array error branch cannot be taken -/
+theorem typesOf_broadcast (j : Job) (h : j.evch = 0) (ch : ℕ) : typesOf j ch = typesOf j 0 := by
+  unfold typesOf evOf
+  simp [h]
+
+theorem length_flatMap_const {α β : Type} (l : List α) (f : α → List β) (m : ℕ)
+    (h : ∀ x ∈ l, (f x).length = m) : (l.flatMap f).length = l.length * m := by
+  induction l with
+  | nil => simp
+  | cons a l ih =>
+    rw [List.flatMap_cons, List.length_append, h a (List.mem_cons_self ..),
+      ih (fun x hx => h x (List.mem_cons_of_mem _ hx)), List.length_cons]
+    ring
+
+theorem elimSolve_length : ∀ (p : ℕ) (rows : List (List ℚ)) (xs : List ℚ),
+    elimSolve p rows = some xs → xs.length = p := by
+  intro p
+  induction p with
+  | zero => intro rows xs h; simp [elimSolve] at h; simp [← h]
+  | succ p ih =>
+    intro rows xs h
+    unfold elimSolve at h
+    split at h
+    · cases h
+    · split at h
+      · cases h
+      · rename_i xs' hrec
+        injection h with h
+        subst h
+        simp [ih _ _ hrec]
+
+/-- all event windows lie inside the recording (the property's domain), for the events channel `ch` uses -/
+def InDomain (j : Job) : Prop :=
+  ∀ ch < max j.nch 1, ∀ k < j.N,
+    getI j.ev ((if j.evch = 0 then 0 else ch) * j.N + k) ≠ 0 → k + j.off.toNat + j.L ≤ j.N
+
+theorem windowBad_false (j : Job) (hdom : InDomain j) : windowBad j = false := by
+  unfold windowBad
+  rw [List.any_eq_false]
+  intro ch hch
+  have hch' := List.mem_range.mp hch
+  rw [Bool.not_eq_true, List.any_eq_false]
+  intro t ht
+  have ht0 : t ≠ 0 := ((results_sorted_by_code _).2 t).mp ht |>.2
+  rw [Bool.not_eq_true, List.any_eq_false]
+  intro k hk
+  unfold evOf nPadOf at hk
+  rw [positions_pad _ _ _ _ t ht0] at hk
+  obtain ⟨k0, hk0, rfl⟩ := List.mem_map.mp hk
+  obtain ⟨hk0N, hev⟩ := mem_positions.mp hk0
+  have := hdom ch hch' k0 hk0N (by rw [hev]; exact ht0)
+  unfold nPadOf
+  simp only [Bool.and_eq_true, decide_eq_true_eq, not_and, not_lt]
+  intro _
+  omega
+
+/-- **shape-layer totality, eta / ets**: in the property's domain (offset ≥ 0, windows inside, the same
+number of event types in every channel — automatic for broadcast 1-d events) `seriesOut` returns, with
+the un-squeezed shape (C, T, len_et) and C·T·len_et values -/
+theorem seriesOut_eta_ets_ok (cur : Bool) (j : Job) (hw : j.what = "eta" ∨ j.what = "ets")
+    (hoff : 0 ≤ j.off) (hdom : InDomain j)
+    (hT : ∀ ch < max j.nch 1, (typesOf j ch).length = (typesOf j 0).length) :
+    ∃ out, seriesOut cur j = .ok out ∧ out.shape = [max j.nch 1, (typesOf j 0).length, j.L] ∧
+      out.data.length = max j.nch 1 * ((typesOf j 0).length * j.L) := by
+  have h1 : ¬ j.off < 0 := by omega
+  have h2 : ((List.range (max j.nch 1)).any fun ch => (typesOf j ch).length != (typesOf j 0).length) = false := by
+    rw [List.any_eq_false]
+    intro ch hch
+    simp [hT ch (List.mem_range.mp hch)]
+  have hlen : ∀ (g : ℕ → ℤ → ℕ → String),
+      ((List.range (max j.nch 1)).flatMap fun ch => (typesOf j ch).flatMap fun t =>
+        (List.range j.L).map fun jj => g ch t jj).length = max j.nch 1 * ((typesOf j 0).length * j.L) := by
+    intro g
+    rw [length_flatMap_const _ _ ((typesOf j 0).length * j.L), List.length_range]
+    intro ch hch
+    rw [length_flatMap_const _ _ j.L, hT ch (List.mem_range.mp hch)]
+    intro t _
+    simp
+  unfold seriesOut
+  simp only [h1, if_false, h2, windowBad_false j hdom]
+  rcases hw with hw | hw
+  · simp only [hw, if_true]
+    exact ⟨_, rfl, rfl, hlen _⟩
+  · simp only [hw, if_true]
+    exact ⟨_, rfl, rfl, hlen _⟩
+theorem eventTypes_ext (xs ys : List ℤ) (h : ∀ t, t ≠ 0 → (t ∈ xs ↔ t ∈ ys)) :
+    eventTypes xs = eventTypes ys := by
+  have hx := results_sorted_by_code xs
+  have hy := results_sorted_by_code ys
+  apply List.Perm.eq_of_pairwise (le := (· < ·)) ?_ hx.1 hy.1 ?_
+  · intro a b _ _ hab hba; omega
+  · rw [List.perm_ext_iff_of_nodup (hx.1.imp (fun h => ne_of_lt h)) (hy.1.imp (fun h => ne_of_lt h))]
+    intro t
+    rw [hx.2, hy.2]
+    constructor
+    · rintro ⟨h1, h2⟩; exact ⟨(h t h2).mp h1, h2⟩
+    · rintro ⟨h1, h2⟩; exact ⟨(h t h2).mpr h1, h2⟩
+
+/-- rolling the padded events by the offset does not change the set of event types (in the domain) -/
+theorem eventTypes_rolled (o N L : ℕ) (ev : ℕ → ℤ) (hL : 0 < L)
+    (hdom : ∀ k < N, ev k ≠ 0 → k + o + L ≤ N) :
+    eventTypes ((List.range (o + N + L)).map (rollFn (o + N + L) o (padFn 0 o N ev)))
+      = eventTypes ((List.range (o + N + L)).map (padFn 0 o N ev)) := by
+  apply eventTypes_ext
+  intro t ht
+  simp only [List.mem_map, List.mem_range]
+  constructor
+  · rintro ⟨i, hi, rfl⟩
+    rw [rolled_spec o N L ev hL hdom i hi] at ht ⊢
+    by_cases hc : 2 * o ≤ i ∧ i < 2 * o + N
+    · rw [if_pos hc] at ht ⊢
+      refine ⟨i - o, by omega, ?_⟩
+      unfold padFn
+      rw [if_pos ⟨by omega, by omega⟩]; congr 1; omega
+    · rw [if_neg hc] at ht; exact absurd rfl ht
+  · rintro ⟨i, hi, rfl⟩
+    unfold padFn at ht
+    by_cases hc : o ≤ i ∧ i < o + N
+    · rw [if_pos hc] at ht
+      have hd := hdom (i - o) (by omega) ht
+      refine ⟨i + o, by omega, ?_⟩
+      rw [rolled_spec o N L ev hL hdom (i + o) (by omega), if_pos ⟨by omega, by omega⟩]
+      unfold padFn
+      rw [if_pos hc]; congr 1; omega
+    · rw [if_neg hc] at ht; exact absurd rfl ht
+
+/-- per-channel FIR never takes an error branch in the domain: no short slice (ValueError), not singular;
+and it returns `T·len_et` coefficients -/
+theorem firChannel_total (cur : Bool) (o N L : ℕ) (ev : ℕ → ℤ) (y : ℕ → ℚ) (hL : 0 < L)
+    (hdom : ∀ k < N, ev k ≠ 0 → k + o + L ≤ N)
+    (hrank : FullColumnRank (o + N + L)
+      ((eventTypes ((List.range (o + N + L)).map (rollFn (o + N + L) o (padFn 0 o N ev)))).length * L)
+      (designEntry cur (rollFn (o + N + L) o (padFn 0 o N ev))
+        (eventTypes ((List.range (o + N + L)).map (rollFn (o + N + L) o (padFn 0 o N ev)))) L)) :
+    ∃ x, firChannel cur (o + N + L) (padFn 0 o N ev) y o L = .ok x ∧
+      x.length = (eventTypes ((List.range (o + N + L)).map (padFn 0 o N ev))).length * L := by
+  obtain ⟨x, hx⟩ := Option.isSome_iff_exists.mp (firSolve_total y hrank)
+  refine ⟨x, ?_, ?_⟩
+  · unfold firChannel
+    simp only [designOk_of_domain o N L ev hL hdom, hx]
+    rfl
+  · rw [← eventTypes_rolled o N L ev hL hdom]
+    exact elimSolve_length _ _ _ hx
+
+/-- full column rank of channel `ch`'s (rolled, padded) design, sign variant `cur` -/
+def ChannelFullRank (cur : Bool) (j : Job) (ch : ℕ) : Prop :=
+  FullColumnRank (nPadOf j)
+    ((eventTypes ((List.range (nPadOf j)).map (rollFn (nPadOf j) j.off.toNat (evOf j ch)))).length * j.L)
+    (designEntry cur (rollFn (nPadOf j) j.off.toNat (evOf j ch))
+      (eventTypes ((List.range (nPadOf j)).map (rollFn (nPadOf j) j.off.toNat (evOf j ch)))) j.L)
+
+/-- **shape-layer totality, FIR**: in the property's domain (offset ≥ 0, len_et ≥ 1, windows inside,
+full column rank per channel, same number of types per channel) `seriesOut` returns with the
+un-squeezed shape (C, T, len_et) and C·T·len_et coefficients -/
+theorem seriesOut_fir_ok (cur : Bool) (j : Job) (hw : j.what = "fir") (hoff : 0 ≤ j.off) (hL : 0 < j.L)
+    (hdom : InDomain j)
+    (hT : ∀ ch < max j.nch 1, (typesOf j ch).length = (typesOf j 0).length)
+    (hrank : ∀ ch < max j.nch 1, ChannelFullRank cur j ch) :
+    ∃ out, seriesOut cur j = .ok out ∧ out.shape = [max j.nch 1, (typesOf j 0).length, j.L] ∧
+      out.data.length = max j.nch 1 * ((typesOf j 0).length * j.L) := by
+  have h1 : ¬ j.off < 0 := by omega
+  have h2 : ((List.range (max j.nch 1)).any fun ch => (typesOf j ch).length != (typesOf j 0).length) = false := by
+    rw [List.any_eq_false]
+    intro ch hch
+    simp [hT ch (List.mem_range.mp hch)]
+  -- every channel returns
+  have hch : ∀ ch < max j.nch 1, ∃ x,
+      firChannel cur (nPadOf j) (evOf j ch) (dataOf j ch) j.off.toNat j.L = .ok x ∧
+        x.length = (typesOf j 0).length * j.L := by
+    intro ch hc
+    obtain ⟨x, hx, hlen⟩ := firChannel_total cur j.off.toNat j.N j.L
+      (fun i => getI j.ev ((if j.evch = 0 then 0 else ch) * j.N + i)) (dataOf j ch) hL
+      (hdom ch hc) (hrank ch hc)
+    refine ⟨x, hx, ?_⟩
+    rw [hlen, ← hT ch hc]
+    rfl
+  unfold seriesOut
+  simp only [h1, if_false, h2, hw, if_true]
+  have hfind : ((List.range (max j.nch 1)).map fun ch =>
+      firChannel cur (nPadOf j) (evOf j ch) (dataOf j ch) j.off.toNat j.L).find?
+        isErr = none := by
+    rw [List.find?_eq_none]
+    intro r hr
+    obtain ⟨ch, hc, rfl⟩ := List.mem_map.mp hr
+    obtain ⟨x, hx, _⟩ := hch ch (List.mem_range.mp hc)
+    rw [hx]; simp [isErr]
+  rw [hfind]
+  refine ⟨_, rfl, rfl, ?_⟩
+  simp only [List.length_map, List.flatMap_map]
+  rw [length_flatMap_const _ _ ((typesOf j 0).length * j.L), List.length_range]
+  intro ch hc
+  obtain ⟨x, hx, hlen⟩ := hch ch (List.mem_range.mp hc)
+  simp only [hx, okVal]; exact hlen
+
+/-- **shape-layer totality, rendered**: in the domain the driver's `runSeries` line for FIR / eta / ets is the
+`ok` line whose shape field is `np.squeeze` of (C, T, len_et) — never an error token -/
+theorem runSeries_ok (cur : Bool) (j : Job) (hw : j.what = "fir" ∨ j.what = "eta" ∨ j.what = "ets")
+    (hoff : 0 ≤ j.off) (hL : 0 < j.L) (hdom : InDomain j)
+    (hT : ∀ ch < max j.nch 1, (typesOf j ch).length = (typesOf j 0).length)
+    (hrank : j.what = "fir" → ∀ ch < max j.nch 1, ChannelFullRank cur j ch) :
+    ∃ data : List String, data.length = max j.nch 1 * ((typesOf j 0).length * j.L) ∧
+      runSeries cur j = "ok t0=" ++ toString (t0Ps j.off j.si) ++ " si=" ++ toString j.si ++ " shape=" ++
+        Nitime.Proto.showNatList (squeeze [max j.nch 1, (typesOf j 0).length, j.L]) ++ " data=" ++
+        Nitime.Proto.joinList data := by
+  have hne : ¬ j.what = "etdata" := by rcases hw with h | h | h <;> rw [h] <;> decide
+  obtain ⟨out, hout, hshape, hlen⟩ : ∃ out, seriesOut cur j = .ok out ∧
+      out.shape = [max j.nch 1, (typesOf j 0).length, j.L] ∧
+      out.data.length = max j.nch 1 * ((typesOf j 0).length * j.L) := by
+    rcases hw with h | h | h
+    · exact seriesOut_fir_ok cur j h hoff hL hdom hT (hrank h)
+    · exact seriesOut_eta_ets_ok cur j (Or.inl h) hoff hdom hT
+    · exact seriesOut_eta_ets_ok cur j (Or.inr h) hoff hdom hT
+  refine ⟨out.data, hlen, ?_⟩
+  unfold runSeries
+  rw [if_neg hne, hout]
+  simp only [header, hshape]
+
+/-! ### one analyzer object, any read order -/
+
+/-- every cached entry is the getter's value -/
+def CacheOk (value : String → String) (cache : List (String × String)) : Prop :=
+  ∀ w v, cache.lookup w = some v → v = value w
+
+theorem readC_spec (value : String → String) (cache : List (String × String)) (w : String)
+    (h : CacheOk value cache) :
+    (readC value cache w).1 = value w ∧ CacheOk value (readC value cache w).2 := by
+  unfold readC
+  cases hl : cache.lookup w with
+  | some v => exact ⟨h w v hl, h⟩
+  | none =>
+    refine ⟨rfl, ?_⟩
+    intro w' v' hv'
+    simp only [List.lookup_cons] at hv'
+    split at hv'
+    · rename_i heq
+      have : w' = w := by simpa using heq
+      injection hv' with hv'; rw [← hv', this]
+    · exact h w' v' hv'
+
+/-- **read_returns_fresh / read_order_irrelevant**: on one analyzer object with a consistent cache, ANY
+sequence of reads returns, for each read, exactly the value a fresh analyzer would compute from the
+inputs; the cache stays consistent.  (The inputs are not part of the mutable state of the model.) -/
+theorem reads_return_fresh (value : String → String) (ws : List String) :
+    ∀ cache, CacheOk value cache →
+      (readsC value cache ws).1 = ws.map value ∧ CacheOk value (readsC value cache ws).2 := by
+  induction ws with
+  | nil => intro cache h; exact ⟨rfl, h⟩
+  | cons w ws ih =>
+    intro cache h
+    obtain ⟨h1, h2⟩ := readC_spec value cache w h
+    obtain ⟨h3, h4⟩ := ih _ h2
+    unfold readsC
+    simp only [List.map_cons]
+    exact ⟨by rw [h1, h3], h4⟩
+
+theorem read_order_irrelevant (value : String → String) (ws : List String) :
+    (readsC value [] ws).1 = ws.map value :=
+  (reads_return_fresh value ws [] (by intro w v h; simp at h)).1
+
+/-- **reads_commute**: the value obtained for getter `w` is the same at every position of every read
+sequence (in particular in every permutation of FIR / eta / ets / et_data) -/
+theorem reads_commute (value : String → String) (ws ws' : List String) (i j : ℕ) (w : String)
+    (hi : ws[i]? = some w) (hj : ws'[j]? = some w) :
+    (readsC value [] ws).1[i]? = (readsC value [] ws').1[j]? := by
+  rw [read_order_irrelevant, read_order_irrelevant, List.getElem?_map, List.getElem?_map, hi, hj]
+
+/-- the analyzer instance: the `seq` op of the driver returns the fresh getter values in the order read -/
+theorem analyzer_reads_fresh (kind : String) (j : Job) (ws : List String) :
+    (readsC (getterValue kind j) [] ws).1 = ws.map (getterValue kind j) :=
+  read_order_irrelevant _ ws
+
 /-! ### non-vacuity: a concrete overlapping two-type design (codes 1 and -2, L = 2) meeting every
 hypothesis of the FIR theorems, and a separated one for the averaging theorems.  (`firSolve` itself
 is run on these very designs by the driver on every check: `fixed_specs` in harness/c19.py.) -/
@@ -728,5 +1020,17 @@ example (resp : ℤ → ℕ → ℚ) (j : ℕ) (hj : j < 2) :
   ⟨by simpa [etaTruth] using eta_exact_no_overlap true 10 evB resp 1 2 _ (fun _ => rfl) separated_B (-1)
         (by omega) ⟨4, by omega, by simp [evB]⟩ j hj,
    ets_zero true 10 evB resp 1 2 _ (fun _ => rfl) separated_B (-1) (by omega) ⟨4, by omega, by simp [evB]⟩ j hj⟩
+
+/-- a two-channel job with broadcast 1-d events meeting the hypotheses of the shape-layer theorems -/
+def jB : Job := { what := "eta", off := 1, L := 2, cb := false, si := 1000, nch := 2, N := 8, evch := 0,
+                  ev := #[0, 1, 0, 0, 2, 0, 0, 0], data := #[] }
+example : InDomain jB := by
+  intro ch hch k hk
+  have : ch < 2 := hch
+  have : k < 8 := hk
+  interval_cases k <;> simp [jB, getI]
+example : ∀ ch < max jB.nch 1, (typesOf jB ch).length = (typesOf jB 0).length :=
+  fun ch _ => by rw [typesOf_broadcast jB rfl ch]
+example : typesOf jB 0 = [1, 2] := by decide
 
 end Nitime.C19.Props
